@@ -60,6 +60,10 @@ func genC20(verifSeed int64, tier string, idx int) *core.Scenario {
 		// leftovers: an earlier store of the same identifier died at some point
 		sp.Pre = append(sp.Pre, Step{K: "CrashedStore", D: 2, ID: 0, Dmg: fmt.Sprint(r.Intn(1 << 20))})
 	}
+	if sp.DirState == "exists" && r.Intn(4) == 0 {
+		// ... or an earlier store of ANOTHER identifier died (its leftovers must not matter to anyone else)
+		sp.Pre = append(sp.Pre, Step{K: "CrashedStore", D: 1, ID: 1 + r.Intn(2), Dmg: fmt.Sprint(r.Intn(1 << 20))})
+	}
 	sp.Steps = []Step{{K: "Store", D: 0, ID: 0, NoClobber: r.Intn(4) == 0, Via: []string{"fs", "rw"}[r.Intn(2)]}}
 	if r.Intn(2) == 0 {
 		for i := 0; i < 4; i++ {
@@ -125,6 +129,7 @@ func execC20(sc *core.Scenario) *core.Result {
 	simos.Mount(pre)
 	e := &env{sp: sp, res: res, disk: pre, docs: docs, model: map[string]*entry{}}
 	e.fs = &storage.FileSystem{Options: storage.FileSystemOptions{Path: sp.Path}}
+	var otherAllowed map[string][]*sbom.Document // other identifiers whose own earlier store crashed: error or one of these
 	var alsoAllowed []*sbom.Document // complete documents an earlier, crashed store of the target may have installed
 	for _, st := range sp.Pre {
 		id := sp.IDs[st.ID%len(sp.IDs)]
@@ -153,7 +158,18 @@ func execC20(sc *core.Scenario) *core.Result {
 			verifsim.Run(sc.Sched, []func(*verifsim.Task){func(*verifsim.Task) { e1.store(proto.Clone(doc).(*sbom.Document), false, "fs") }})
 			pre.ResetPlan()
 			simos.Mount(pre)
-			alsoAllowed = append(alsoAllowed, doc)
+			if st.ID%len(sp.IDs) == 0 {
+				alsoAllowed = append(alsoAllowed, doc)
+			} else {
+				if otherAllowed == nil {
+					otherAllowed = map[string][]*sbom.Document{}
+				}
+				otherAllowed[id] = append(otherAllowed[id], doc)
+				if m := e.model[id]; m != nil {
+					otherAllowed[id] = append(otherAllowed[id], m.doc)
+				}
+				delete(e.model, id) // this identifier's own state is uncertain; it is judged leniently below
+			}
 			res.Probes["pre-state holds leftovers of an earlier crashed store"]++
 			continue
 		}
@@ -316,6 +332,13 @@ func execC20(sc *core.Scenario) *core.Result {
 		}
 		if st.NoClobber && oldDoc != nil && oc == "new" {
 			res.Violate("crash:"+slotClass(sl, firstMod)+":noclobber-replaced", "with no-clobber set and an existing entry, a crashed store replaced the entry")
+		}
+		// an identifier whose own earlier store crashed: an error or one of its complete documents
+		for _, oid := range sortedKeys(otherAllowed) {
+			od, oerr, oabort, _ := env3.retrieve(oid, "fs")
+			if oabort != "" || (oerr == nil && !matchesAny(od, otherAllowed[oid])) {
+				res.Violate("crash:"+slotClass(sl, firstMod)+":other-id-changed", fmt.Sprintf("process death at %s of Store(%q): the entry of %q (itself left by a crashed store) now yields a document that was never stored under it", sl.desc, short(id), oid))
+			}
 		}
 		// other identifiers are unaffected
 		for _, oid := range sortedKeys(e.model) {
